@@ -409,3 +409,59 @@ def gen_case2(rng, size=14, allow_desc=True):
     del case["_nest"]
     case.pop("_xsitype", None)
     return case
+
+
+def gen_case_siblings(rng):
+    """sibling scopes: key and keyref declared on the repeated element c1; references are drawn from the keys of ALL
+    siblings, so that a reference is often satisfied only by a key of a preceding or following sibling scope (which the
+    specification does not put in scope) -- and keys/references of one primitive family but different types"""
+    nl, na, nc = 3, 3, 3
+    fam = FAMILIES[rng.choice(["dec", "dec", "str", "date"])]
+    if rng.random() < 0.4:
+        t = rng.choice("sidDtq")
+        lt = [t, t, t]
+    else:
+        lt = [rng.choice(fam) for _ in range(nl)]
+    case = {"ltypes": lt, "lnil": [False] * nl, "atypes": [rng.choice(fam) for _ in range(na)], "nc": nc, "ics": []}
+    wrap = rng.random() < 0.6
+    ksel = rng.choice(["l0", "l0", "c2/l0", "*/l0"]) if not wrap else "l0"
+    case["ics"].append({"elem": 1, "kind": rng.choice("ku"), "id": 0, "refer": None, "sel": ksel, "fields": ["."]})
+    ref = {"elem": 1, "kind": "r", "id": 1, "refer": 0, "sel": rng.choice(["l1", "l1", "c2/l1"]), "fields": ["."]}
+    if rng.random() < 0.5:
+        case["ics"].append(ref)
+    else:
+        case["ics"].insert(0, ref)
+    groups = POOL[lt[0]]
+    scopes = []
+    allkeys = []
+    for _ in range(rng.randrange(2, 5)):
+        gs = rng.sample(range(len(groups)), min(len(groups), rng.randrange(1, 4)))
+        scopes.append(gs)
+        allkeys += gs
+    kids = []
+    for gs in scopes:
+        inner = []
+        keyholder = inner
+        if "c2/" in ksel or "*/" in ksel:
+            keyholder = []
+        for g in gs:
+            keyholder.append(["l", 0, {}, rng.choice(groups[g])])
+        if keyholder is not inner:
+            inner.append(["c", 2, {}, keyholder])
+        refs = []
+        for _ in range(rng.randrange(0, 4)):
+            g = rng.choice(allkeys) if rng.random() < 0.85 else rng.randrange(len(groups))
+            # the reference is written with the lexical forms of ITS type when the value exists there
+            cand = [x for x in POOL[lt[1]] if any(v in groups[g] for v in x)]
+            refs.append(["l", 1, {}, rng.choice(cand[0]) if cand else pick_value(rng, lt[1])])
+        if "c2/" in ref["sel"]:
+            inner.append(["c", 2, {}, refs])
+        else:
+            inner += refs
+        rng.shuffle(inner)
+        node = ["c", 1, {}, inner]
+        # scopes at different nesting depths (the C++ keeps one ValueStore per constraint and depth)
+        w = rng.random() < 0.5 if wrap else False
+        kids.append(["c", 2, {}, [node]] if w else node)
+    case["tree"] = ["c", 0, {}, kids]
+    return case
